@@ -158,6 +158,7 @@ func (c19) Plan(tier string, seed int64) []mon.Workload {
 		{Name: "typed-getters", N: int64(len(c19Getters) * len(c19Lits) * 5), Exhaustive: true},
 		{Name: "typed-calls", N: int64(len(c19ValidLists(mp))) * seqCount(len(c19ArgNames), ma), Exhaustive: true},
 		{Name: "nested-calls", N: map[string]int64{"quick": 1500, "thorough": 100000}[tier]},
+		{Name: "many-params", N: map[string]int64{"quick": 3000, "thorough": 150000}[tier]},
 	}
 }
 
@@ -362,6 +363,10 @@ func (c19) Describe(c *mon.Ctx, workload string, i int64) any {
 	if workload == "typed-getters" || workload == "nested-calls" {
 		return map[string]any{"index": i}
 	}
+	if workload == "many-params" {
+		l, names := c19Many(c)
+		return map[string]any{"signature": sigString(l), "call": c19ManyCall(names)}
+	}
 	if workload == "typed-calls" {
 		nCalls := seqCount(len(c19ArgNames), ma)
 		l := c19ValidLists(mp)[i/nCalls]
@@ -414,6 +419,10 @@ func (k c19) Run(c *mon.Ctx, workload string, i int64) {
 	}
 	if workload == "typed-calls" {
 		k.typedCalls(c, i)
+		return
+	}
+	if workload == "many-params" {
+		k.manyParams(c)
 		return
 	}
 	nCalls := seqCount(len(c19ArgNames), ma)
@@ -695,5 +704,215 @@ func (k c19) typedCalls(c *mon.Ctx, i int64) {
 		c.Violate("getparam-error:typed", fmt.Sprintf("%s was accepted but reading the parameters failed: %v", key, getErr), cs)
 	case !ref.DeepEqual(any(want), any(got), false):
 		c.Violate("wrong-binding:typed", fmt.Sprintf("%s: parameters must receive %s, received %s", key, ref.Show(want), ref.Show(got)), cs)
+	}
+}
+
+// many-params (seeded): the exhaustive workloads stop at 4 parameters and 5
+// arguments; here parameter lists have 5..40 parameters (required then
+// optional, or required then one variadic; sizes on both sides of 8, 16, 32) and
+// calls pass up to that many arguments, positional first and then named in a
+// shuffled order, with the occasional defect (unknown name, repeated name,
+// missing required, surplus positional, named with variadic). Same reference
+// binder, same oracle.
+func c19Many(c *mon.Ctx) (l []c19Param, args []string) {
+	sizes := []int{5, 7, 8, 9, 15, 16, 17, 31, 32, 33, 40}
+	n := sizes[c.R.Intn(len(sizes))]
+	nreq := c.R.Intn(n + 1)
+	variadic := c.R.Intn(4) == 0
+	if variadic {
+		nreq = n - 1 // a variadic parameter does not mix with optional ones
+	}
+	for i := 0; i < n; i++ {
+		kind := "opt"
+		if i < nreq {
+			kind = "req"
+		}
+		if variadic && i == n-1 {
+			kind = "var"
+		}
+		l = append(l, c19Param{Name: fmt.Sprintf("q%d", i), Kind: kind})
+	}
+	// positional prefix
+	npos := c.R.Intn(n + 1)
+	if variadic {
+		npos = c.R.Intn(n + 6)
+	}
+	for j := 0; j < npos; j++ {
+		args = append(args, "")
+	}
+	if !variadic || c.R.Intn(8) == 0 {
+		// the remaining parameters by name, shuffled, each with probability 3/4 (required ones always, unless a defect is wanted)
+		var rest []string
+		for j := npos; j < n; j++ {
+			if l[j].Kind == "req" || c.R.Intn(4) != 0 {
+				rest = append(rest, l[j].Name)
+			}
+		}
+		c.R.Shuffle(len(rest), func(a, b int) { rest[a], rest[b] = rest[b], rest[a] })
+		args = append(args, rest...)
+	}
+	switch c.R.Intn(10) {
+	case 0:
+		args = append(args, "nosuch")
+	case 1:
+		if len(args) > 0 {
+			args = append(args, args[c.R.Intn(len(args))])
+		}
+	case 2:
+		if len(args) > 0 {
+			k := c.R.Intn(len(args))
+			args = append(args[:k], args[k+1:]...)
+		}
+	case 3:
+		args = append(args, "")
+	}
+	return l, args
+}
+
+func c19ManyCall(args []string) string {
+	p := make([]string, len(args))
+	for j, a := range args {
+		if a == "" {
+			p[j] = fmt.Sprint(100 + j)
+		} else {
+			p[j] = fmt.Sprintf("%s = %d", a, 100+j)
+		}
+	}
+	return "f(" + strings.Join(p, ", ") + ")"
+}
+
+// refBindNames is refBind for argument names given as strings ("" = positional).
+func refBindNames(l []c19Param, args []string) (vals []any, ok bool) {
+	bound := make([]any, len(l))
+	has := make([]bool, len(l))
+	variadic := -1
+	if n := len(l); n > 0 && l[n-1].Kind == "var" {
+		variadic = n - 1
+	}
+	var rest []any
+	named := false
+	for j, a := range args {
+		val := any(int64(100 + j))
+		if a == "" {
+			if named {
+				return nil, false
+			}
+			switch {
+			case variadic >= 0 && j >= variadic:
+				rest = append(rest, val)
+			case j < len(l):
+				bound[j], has[j] = val, true
+			default:
+				return nil, false
+			}
+			continue
+		}
+		named = true
+		if variadic >= 0 {
+			return nil, false
+		}
+		idx := -1
+		for i := range l {
+			if l[i].Name == a {
+				idx = i
+			}
+		}
+		if idx < 0 || has[idx] {
+			return nil, false
+		}
+		bound[idx], has[idx] = val, true
+	}
+	for i, p := range l {
+		switch p.Kind {
+		case "req":
+			if !has[i] {
+				return nil, false
+			}
+		case "opt":
+			if !has[i] {
+				bound[i] = "def_" + p.Name
+			}
+		case "var":
+			if rest == nil {
+				rest = []any{}
+			}
+			bound[i] = rest
+		}
+	}
+	return bound, true
+}
+
+func (k c19) manyParams(c *mon.Ctx) {
+	l, args := c19Many(c)
+	want, ok := refBindNames(l, args)
+	params := realParams(l)
+	if !refValidList(l) {
+		panic("c19: many-params generated a malformed list: " + sigString(l))
+	}
+	if err := runtimev2.CheckFnParamDef(params); err != nil {
+		c.Violate("paramdef-valid-rejected", fmt.Sprintf("%s is a valid parameter list but was rejected: %v", sigString(l), err), map[string]any{"signature": sigString(l)})
+		return
+	}
+	var got []any
+	var getErr *errchain.PlError
+	fn := &runtimev2.Fn{
+		CallCheck: func(ctx *runtimev2.Task, e *ast.CallExpr) *errchain.PlError {
+			return runtimev2.CheckPassParam(ctx, e, params)
+		},
+		Call: func(ctx *runtimev2.Task, e *ast.CallExpr) *errchain.PlError {
+			for pi := range params {
+				v, err := runtimev2.GetParam(ctx, e, params, pi)
+				if err != nil {
+					getErr = err
+					return err
+				}
+				if l[pi].Kind == "var" {
+					lst, _ := v.([]any)
+					if lst == nil {
+						lst = []any{}
+					}
+					v = lst
+				}
+				got = append(got, v)
+			}
+			return nil
+		},
+	}
+	src := c19ManyCall(args)
+	var err error
+	var pan any
+	func() {
+		defer func() { pan = recover() }()
+		var s *runtimev2.Script
+		if s, err = engine.ParseV2("c19.p", src, map[string]*runtimev2.Fn{"f": fn}); err == nil {
+			out := drive.RunV2(s, &drive.RunState{Budget: 10000})
+			if out.Panic != nil {
+				pan = out.Panic
+			}
+			if out.Err != nil && getErr == nil {
+				getErr = out.Err
+			}
+		}
+	}()
+	c.Eval(1)
+	key := sigString(l) + " <- " + src
+	c.Nontrivial("many|" + key)
+	verdict := "rejected"
+	if ok {
+		verdict = "bound"
+	}
+	c.Cell("many_params_cells", fmt.Sprintf("params%d/%s", len(l), verdict))
+	cs := map[string]any{"signature": sigString(l), "call": src}
+	switch {
+	case pan != nil:
+		c.Violate("call-panic", fmt.Sprintf("%s: panic: %v", key, pan), cs)
+	case !ok && err == nil:
+		c.Violate("unbindable-call-accepted:many", fmt.Sprintf("%s cannot be bound but was accepted at load time; the function received %s", key, ref.Show(got)), cs)
+	case ok && err != nil:
+		c.Violate("bindable-call-rejected:many", fmt.Sprintf("%s binds to %s but was rejected: %v", key, ref.Show(want), err), cs)
+	case ok && getErr != nil:
+		c.Violate("getparam-error:many", fmt.Sprintf("%s was accepted but reading the parameters failed: %v", key, getErr), cs)
+	case ok && !ref.DeepEqual(any(want), any(got), false):
+		c.Violate("wrong-binding:many", fmt.Sprintf("%s: parameters must receive %s, received %s", key, ref.Show(want), ref.Show(got)), cs)
 	}
 }
